@@ -36,6 +36,7 @@ type lifeScenario struct {
 	closeInRead   int  // the read handler closes the channel during its k-th read (0 = never)
 	panicInActive bool // the active handler panics (with a string value)
 	swallow       bool // a user exception handler swallows the exception of the active panic
+	panicInactive bool // the inactive handler panics after it was called
 	threads       [][]lifeOp
 }
 
@@ -111,6 +112,9 @@ func (h *lifeHead) HandleRead(ctx netty.InboundContext, m netty.Message) {
 
 func (h *lifeHead) HandleInactive(ctx netty.InactiveContext, ex netty.Exception) {
 	h.c.Emit("inactive:%s", lifeErrClass(ex))
+	if h.sc.panicInactive {
+		panic("inactive-panic")
+	}
 	ctx.HandleInactive(ex)
 }
 
@@ -144,6 +148,7 @@ func genLife(rng *rand.Rand) *lifeScenario {
 		sc.panicInActive = true
 		sc.swallow = rng.Intn(2) == 0
 	}
+	sc.panicInactive = rng.Intn(4) == 0
 	// the feeder: some successful reads, then possibly a read-side failure
 	var t1 []lifeOp
 	for i := 0; i < rng.Intn(3); i++ {
@@ -252,7 +257,7 @@ func runLifeScenario(sc *lifeScenario, strat rt.Strategy) *rt.Controller {
 }
 
 func printLife(sc *lifeScenario, c *rt.Controller) {
-	emit("C05L cfg %d %d %d %d %d", b2i(sc.async), b2i(sc.closeInActive), sc.closeInRead, b2i(sc.panicInActive), b2i(sc.swallow))
+	emit("C05L cfg %d %d %d %d %d %d", b2i(sc.async), b2i(sc.closeInActive), sc.closeInRead, b2i(sc.panicInActive), b2i(sc.swallow), b2i(sc.panicInactive))
 	for ti, ops := range sc.threads {
 		ss := make([]string, len(ops))
 		for i, o := range ops {
